@@ -102,6 +102,18 @@ Proof.
 Qed.
 Print Assumptions C28_refines.
 
+(* == (used by index) on lists is the reference list equality; the separator counts for every length *)
+Theorem C28_list_eq : forall a b, veq a b = sp_equal a b.
+Proof. exact list_eq_refines. Qed.
+Print Assumptions C28_list_eq.
+
+Theorem C28_short_list_sep_matters : forall x,
+  veq (VList [x] (Some SSpace) false) (VList [x] (Some SComma) false) = false /\
+  veq (VList [] (Some SSpace) false) (VList [] (Some SComma) false) = false /\
+  veq (VList [] None false) (VList [] (Some SSpace) false) = false.
+Proof. exact short_list_sep_matters. Qed.
+Print Assumptions C28_short_list_sep_matters.
+
 (* the full statement "every list function treats every value as the reference list" is false for index *)
 Definition C28_statement_index : Prop := forall l x, f_index l x = ROk (sp_index l x).
 Theorem C28_refuted_index_arglist : ~ C28_statement_index.
